@@ -174,7 +174,7 @@ func baseSet() [][]byte {
 
 func TestC14(t *testing.T) {
 	run := evid.Start("C14", "exploration")
-	acc := enum.NewAcc(run, "32-byte strings: the independently derived encodings of the 8 small-order points (canonical and y+p, both sign bits); every string at Hamming distance 1 and 2 from each of them (quick: from the 7 sign-bit-0 forms; thorough: from all 14 forms, plus distance 3 from the 7 sign-bit-0 forms); all 65 536 strings that are 00 except first and last byte, and all 65 536 that are ff except first and last byte; honest fixture public keys; plus all ordered pairs of fixture key pairs for the shared secret. Non-trivial = every case except the honest keys and the self-pairs; distinct by the 32-byte string (or the key pair)")
+	acc := enum.NewAcc(run, "32-byte strings: the independently derived encodings of the 8 small-order points (canonical and y+p, both sign bits); every string at Hamming distance 1 and 2 from each of them (quick: from the 7 sign-bit-0 forms; thorough: from all 14 forms, plus distance 3 from 4 sign-bit-0 forms, one per point order); all 65 536 strings that are 00 except first and last byte, and all 65 536 that are ff except first and last byte; honest fixture public keys; plus all ordered pairs of fixture key pairs for the shared secret. Non-trivial = every case except the honest keys and the self-pairs; distinct by the 32-byte string (or the key pair)")
 
 	base := baseSet()
 	inBase := map[string]bool{}
@@ -274,12 +274,15 @@ func TestC14(t *testing.T) {
 			break
 		}
 	}
-	// thorough only: Hamming distance 3 from the sign-bit-0 forms
+	// thorough only: Hamming distance 3 from four of the sign-bit-0 forms
+	h3centres := 0
 	if !run.Quick() {
+		// one centre of each order: 00.. (order 4), 01.. (order 1), 26e8.. (order 8), ecff..7f (order 2)
 		for _, c := range base {
-			if c[31]&0x80 != 0 {
+			if c[31]&0x80 != 0 || !(c[0] == 0x00 || c[0] == 0x01 || c[0] == 0x26 || c[0] == 0xec) {
 				continue
 			}
+			h3centres++
 			enum.Par(256, 16, func(i int) {
 				for j := i + 1; j < 256; j++ {
 					if run.Expired() {
@@ -297,6 +300,7 @@ func TestC14(t *testing.T) {
 			})
 		}
 	}
+	run.Cov["hamming3_centres"] = h3centres
 	{
 		s := append([]byte{}, base[0]...)
 		s[0] ^= 1
